@@ -580,4 +580,29 @@ def tableUpdate {C : Type} (_old : Option C) (conf : C) : Option C := some conf
 /-- the table after a history of reloads, starting from a fresh module -/
 def tableAfter {C : Type} (history : List C) : Option C := history.foldl tableUpdate none
 
+/-! ## histories: reloads (accepted or rejected) and requests on one module instance -/
+
+/-- a step of a history: a reload with a conf that the loader accepts (`some c`) or rejects (`none`), or a request -/
+inductive Step (C Q : Type) where
+  | load (c : Option C)
+  | req (q : Q)
+
+/-- loadConfData: a rejected file returns an error before `ruleTable.Update`, an accepted one replaces the table -/
+def confAfter {C Q : Type} : Option C → List (Step C Q) → Option C
+  | cur, [] => cur
+  | _, .load (some c) :: rest => confAfter (some c) rest
+  | cur, .load none :: rest => confAfter cur rest
+  | cur, .req _ :: rest => confAfter cur rest
+
+/-- the answers to the requests of a history (handlers keep no state of their own) -/
+def histAnswers {C Q R : Type} (handle : Option C → Q → R) : Option C → List (Step C Q) → List R
+  | _, [] => []
+  | _, .load (some c) :: rest => histAnswers handle (some c) rest
+  | cur, .load none :: rest => histAnswers handle cur rest
+  | cur, .req q :: rest => handle cur q :: histAnswers handle cur rest
+
+def Step.isReq {C Q : Type} : Step C Q → Bool
+  | .req _ => true
+  | .load _ => false
+
 end BfeVerif.C51
